@@ -220,6 +220,70 @@ pub fn salts(ctx: &Ctx, rep: &mut Report) {
     }
     check_history("everything together", &all, rep);
     rep.require("long_lived_thread_signatures", long_n as u64);
+    // a sign call that PANICS and is caught, between ordinary signatures on the same thread (a
+    // worker pool that survives panicking jobs): a generator hook that unwinds makes one call of
+    // sign panic. Salts before and after must all be different.
+    {
+        let (kp, _) = pool::keys::<F512>(ctx.seed, "c08-panic", 1);
+        let (kp2, _) = pool::keys::<F1024>(ctx.seed, "c08-panic", 1);
+        if let (Some(k5), Some(k10)) = (kp.first(), kp2.first()) {
+            let mut recs: Vec<SaltRec> = vec![];
+            let mut hs = vec![];
+            for t in 0..ctx.sz(8, 64) {
+                let (sk5, sk10) = (k5.sk.clone(), k10.sk.clone());
+                hs.push(std::thread::spawn(move || {
+                    vh::set_sign_rng(None);
+                    let mut out: Vec<SaltRec> = vec![];
+                    let mut unwound = 0;
+                    for round in 0..4 {
+                        for j in 0..3 {
+                            let msg = format!("panic-history-{}-{}-{}", t, round, j).into_bytes();
+                            let b = if (t + j) % 2 == 0 { monitored(|| F512::sig_to_bytes(&F512::sign(&msg, &sk5))) } else { monitored(|| F1024::sig_to_bytes(&F1024::sign(&msg, &sk10))) };
+                            if let Ok(b) = b {
+                                out.push(SaltRec { salt: b[1..41].to_vec(), sig_hash: crate::util::hash64(&b), ctx: format!("thread {} round {} call {} (a caught panic of sign precedes every round but the first)", t, round, j) });
+                            }
+                        }
+                        // the panicking call: a generator (RNG hook) that unwinds on first use
+                        struct Boom;
+                        impl rand::RngCore for Boom {
+                            fn next_u32(&mut self) -> u32 {
+                                panic!("generator unwinds")
+                            }
+                            fn next_u64(&mut self) -> u64 {
+                                panic!("generator unwinds")
+                            }
+                            fn fill_bytes(&mut self, _d: &mut [u8]) {
+                                panic!("generator unwinds")
+                            }
+                            fn try_fill_bytes(&mut self, _d: &mut [u8]) -> Result<(), rand::Error> {
+                                panic!("generator unwinds")
+                            }
+                        }
+                        vh::set_sign_rng(Some(Box::new(Boom)));
+                        let r = monitored(|| F512::sign(b"unwinding generator", &sk5)).is_err();
+                        vh::set_sign_rng(None);
+                        if r {
+                            unwound += 1;
+                        }
+                    }
+                    (out, unwound)
+                }));
+            }
+            let mut unwound_total = 0;
+            for h in hs {
+                if let Ok((o, u)) = h.join() {
+                    recs.extend(o);
+                    unwound_total += u;
+                }
+            }
+            rep.count("sign_calls_that_unwound_between_signatures", unwound_total as u64);
+            rep.count("signatures_around_caught_panics", recs.len() as u64);
+            check_history("signatures before and after caught panics of sign", &recs, rep);
+            rep.nontrivial_s("history|caught-panics");
+            all.extend(recs);
+        }
+    }
+    rep.require("sign_calls_that_unwound_between_signatures", 8);
     // how much of the generator's output the salt carries: two generator streams (RNG hook) that
     // agree ONLY on a window of at most 32 output positions and are independent everywhere else
     // cannot lead to the same 40-byte salt, wherever in the stream the salt is drawn from; a salt
